@@ -404,7 +404,7 @@ Theorem to_new_axes_spec : forall thr (newz newx : vecR) c2 s2 rho, 0 <= thr -> 
   let f := v_normalize RNum newz in
   let xo := v_add RNum newx (v_mul RNum f (- Rdot f newx)) in
   let x' := fst (to_new_axes_x' RNum isnormR thr newz newx) in
-  (0 <= Rdot f ez \/ thr < Rlsq (v_add RNum f ez)) ->
+  (0 <= Rdot f ez \/ thr < Rlsq (v_add RNum f ez) \/ f = v_mul RNum ez (-1)) ->
   c2 * c2 + s2 * s2 = 1 -> 0 < rho -> (c2 * c2 - s2 * s2) * rho = vx x' -> (2 * s2 * c2) * rho = - vy x' ->
   let q := to_new_axes RNum isnormR thr c2 s2 newz newx in
   Rqlsq q = 1 /\ Rrot f q = ez /\ Rrot xo q = mkV rho 0 0 /\ Rdot f xo = 0.
@@ -412,8 +412,15 @@ Proof.
   intros thr newz newx c2 s2 rho Hthr Hz f xo x' Hgen Hcs Hrho Hc Hs q.
   pose proof (normalize_unit newz Hz) as Hf. fold f in Hf.
   assert (Hf0 : 0 < Rlsq f) by lra. assert (He0 : 0 < Rlsq ez) by (rewrite lsq_ez; lra).
-  pose proof (from_to_spec thr f ez Hthr Hf0 He0) as S. cbv zeta in S.
-  rewrite (normalize_unit_id f Hf), (normalize_unit_id ez lsq_ez) in S. destruct S as (U1 & M1 & _). specialize (M1 Hgen).
+  assert (S : Rqlsq (from_to RNum isnormR thr f ez) = 1 /\ Rrot f (from_to RNum isnormR thr f ez) = ez).
+  { pose proof (from_to_spec thr f ez Hthr Hf0 He0) as S. cbv zeta in S.
+    rewrite (normalize_unit_id f Hf), (normalize_unit_id ez lsq_ez) in S. destruct S as (U1 & M1 & _).
+    split; [exact U1|]. destruct Hgen as [H|[H|H]]; [apply M1; left; exact H | apply M1; right; exact H|].
+    (* newz_hat = -z exactly: the antiparallel branch, a half turn *)
+    assert (Eez : ez = v_mul RNum f (- (1))) by (rewrite H; apply vec_eq; unfold ez; unf; ring).
+    pose proof (from_to_antiparallel thr f 1 Hthr Hf0 Rlt_0_1) as A. cbv zeta in A. rewrite <- Eez in A.
+    rewrite (normalize_unit_id f Hf), (normalize_unit_id ez lsq_ez) in A. destruct A as (_ & A & _). exact A. }
+  destruct S as [U1 M1].
   set (q1 := from_to RNum isnormR thr f ez) in *.
   assert (Eq1 : snd (to_new_axes_x' RNum isnormR thr newz newx) = q1) by reflexivity.
   assert (Ex' : x' = Rrot xo q1) by reflexivity.
